@@ -22,7 +22,10 @@ BASES = {
     "net": A._b(soil="Sand", word="dry", irr="net80", iwc="WP"),
     "const": A._b(soil="Clay", word="normal", irr="const8e70"),
     "sched_bunds": A._b(soil="Paddy", word="showers", irr="sched", field="bunds50w20", crop="rice.2", iwc="SAT"),
+    "const_wet30": A._b(soil="Loam", word="normal", irr="const8wet30"),
+    "smt_wet40": A._b(soil="SandyLoam", word="dry", irr="smt_wet40", iwc="Pct50"),
 }
+A.IRR.setdefault("smt_wet40", {"method": 1, "kw": {"SMT": [70] * 4, "WetSurf": 40, "AppEff": 90}})
 
 
 def method(spec):
@@ -229,7 +232,7 @@ def run(scn):
 
 def describe(tier):
     return {
-        "rule": "8 bases (rainfed on clay / with off-season / with a water table; threshold; interval; net; constant depth; schedule with bunds) x each of 21 neutral "
+        "rule": "10 bases (rainfed on clay / with off-season / with a water table; threshold; interval; net; constant depth; schedule with bunds; constant depth and threshold irrigation with a partially wetted surface) x each of 21 neutral "
                 "transformations (mulch / bund / CN-percentage parameters with the feature off, in the season and the fallow struct; parameters of non-selected strategies "
                 "incl. a schedule; efficiency and wetted fraction without irrigation; mulches on with cover 0 or factor 0; depth 0, empty schedule, daily or seasonal "
                 "maximum 0 (each equivalent to rainfed); explicit default latest-harvest date) alone and " + ("every 7th pair" if tier == "quick" else "ALL pairs") + "; all four tables bitwise equal to the base run.",
